@@ -26,6 +26,7 @@ var (
 func checkC07(c *chk.Ctx) {
 	h := newH(c)
 	c.Decided = []string{
+		"R07k once an entry is committed the leader's continuation applies it on every path (no shortcut on a cancelled request context)",
 		"R07a one indexed write batch per request: every mutation, the commit offset and the version counter go into the batch created by ProcessWrite, which is committed exactly once before success is reported",
 		"R07b replay starts right after the commit offset stored in the DB (leader) / applied by the follower",
 		"R07c the apply loops apply every entry they read, in reader order, and stop at the first failure; the forward reader advances by exactly one per successful read",
@@ -46,6 +47,7 @@ func checkC07(c *chk.Ctx) {
 	h.Rule("R07h", "K3", "the follower's applied commit offset is only assigned from DB.ReadCommitOffset or from the offset of an entry it has just applied (shared with R06e)", 2)
 	ruleAppliedOffsetProvenance(h, "R07h")
 	ruleCommittedContinuationsSucceed(h, "R07i")
+	ruleCommittedEntryAlwaysApplied(h, "R07k")
 	ruleCommitCheckUnderLock(h, "R07j")
 }
 
@@ -584,7 +586,7 @@ func innerStepsFail(h *H, g *ssa.Function, batch ssa.Value, depth int) string {
 				if !isRet || bad != "" || len(ret.Results) == 0 || !mayReturnNilError(ret) {
 					return
 				}
-				if ir.Canon(ir.ReturnValues(ret)[len(ret.Results)-1]) == ci.(ssa.Value) {
+				if last := ir.Canon(ir.ReturnValues(ret)[len(ret.Results)-1]); last == ci.(ssa.Value) || last == ir.Canon(ev) {
 					return // returns the step's own error
 				}
 				if r, _ := ir.Reach(ir.Search{From: ci}, ir.Is(ret)); !r {
